@@ -134,6 +134,12 @@ def run(ctx: Ctx):
                     ("Africa/Cairo", date(2010, 6, 1), date(2011, 1, 1)), ("Asia/Gaza", date(2011, 1, 1), date(2012, 1, 1))]
             jobs = [(tzid, f, l, False) for tzid in ids for (f, l) in (windows if tzid in HARD or not ctx.quick else windows[:1])]
             jobs += [(tzid, f, l, False) for tzid, f, l in busy]
+            # windows over years in which a zone kept its pair of offsets and changed its abbreviations (IST/IDT -> EET/EEST,
+            # YST/YDT -> AKST/AKDT, ...): observances are told apart by name as well as by offsets
+            renamed = [("Asia/Gaza", date(1994, 6, 1), date(1998, 6, 1)), ("Asia/Hebron", date(1995, 1, 1), date(1997, 12, 31)),
+                       ("America/Yakutat", date(1982, 6, 1), date(1986, 6, 1)), ("America/Juneau", date(1982, 6, 1), date(1985, 6, 1)),
+                       ("Europe/Volgograd", date(1988, 1, 1), date(1993, 12, 31)), ("Europe/Kirov", date(1988, 1, 1), date(1993, 12, 31))]
+            jobs += [(tzid, f, l, False) for tzid, f, l in renamed]
             jobs += [(tzid, f, l, True) for tzid, f, l in edge]
             for tzid, f, l, tight in jobs:
                 for _once in (0,):
